@@ -34,7 +34,7 @@ ASSUMPTIONS = [
 ]
 PROBES = ["shared_client", "multi_client", "v3_concurrent_discovery", "complete_permutation_group", "contains_walk",
           "same_request_id_in_flight", "lossy", "lossy_timeout", "set_in_group", "six_ops", "overlapping_walks", "distinct_request_ids_in_flight", "operation_abandoned_by_caller",
-          "temporary_reconfiguration_in_group"]
+          "temporary_reconfiguration_in_group", "devices_share_engine_id_differ_in_boots"]
 shrink_lists = [("ops",)]
 BASE = (1, 3, 6, 1, 2, 1, 7)
 #: SET targets lie before every object any operation reads: GETNEXT/GETBULK only move forward, so no read can ever reach them
@@ -100,6 +100,13 @@ def plan_for(tier: str, seed: int, i: int) -> dict:
         else:
             proto = {"version": "v2c", "community": "comm-%d" % c}
         clients.append({"proto": proto, "mib": _mib(rng, c), "addr": ("10.0.0.%d" % (2 + c), 161)})
+    # the devices behind different clients are different engines: own boots/time, usually own engine ids (cloned devices
+    # may share one) - nothing a client learns about one device may leak into its dealings with another
+    arng = rng_for(seed, ID, tier + ":a", group)
+    same_engine = arng.random() < 0.4
+    for c, cl in enumerate(clients):
+        cl["engine"] = {"id": b"\x80\x00\x1f\x88\x80verif" if same_engine else b"\x80\x00\x1f\x88\x80dev-%d" % c,
+                        "boots": arng.choice([1, 1 + c, 7 * (c + 1)]), "time0": arng.choice([1000, 1000 + 5000 * c, 10 ** 6 * (c + 1)])}
     all_single = rng.random() < 0.55
     k = rng.randrange(2, 5) if all_single else rng.randrange(2, 7)
     ops = []
@@ -130,10 +137,16 @@ def plan_for(tier: str, seed: int, i: int) -> dict:
             alt = {"version": "v3", "user": erng.choice(["guest", base["user"]]), "level": 0}
             if alt["user"] == base["user"]:
                 alt = {"version": "v3", "user": "operator", "level": 1, "auth": "md5", "auth_pass": PASSWORDS[3]}
+                if erng.random() < 0.5:
+                    alt = {"version": "v3", "user": "operator", "level": 3, "auth": "sha1" if base["auth"] == "md5" else "md5",
+                           "auth_pass": PASSWORDS[3], "priv": "verifstream2" if base["priv"] == "verifstream" else "verifstream",
+                           "priv_pass": PASSWORDS[2]}
         else:
             alt = {"version": "v2c", "community": "rw-" + base["community"]}
         keys = [o for o, _ in clients[ci]["mib"]]
-        ops[-1] = {"client": ci, "op": {"op": "get", "oid": erng.choice(keys)}, "reconf": alt}
+        # the reconfigured operation may itself fail (an absent object): the block is then left by an exception
+        target = erng.choice(keys) if erng.random() < 0.7 else BASE + (5, 5, 0)
+        ops[-1] = {"client": ci, "op": {"op": "get", "oid": target}, "reconf": alt}
         reconf = {"op": k - 1}
     return {"prop": ID, "clients": clients, "ops": ops, "perm_index": perm_index, "latseed": mrng.getrandbits(40),
             "clock_mode": clock_mode, "cancel": cancel, "reconf": reconf,
@@ -180,7 +193,9 @@ def _run(plan: dict, only: Optional[int]) -> dict:
     clients = []
     reconf_i = (plan.get("reconf") or {}).get("op")
     for ci0, c in enumerate(plan["clients"]):
-        ag = agent_for(c["proto"], dict(c["mib"]))
+        eng = c.get("engine")
+        ag = agent_for(c["proto"], dict(c["mib"]), **({"engine_id": eng["id"], "boots": eng["boots"], "time0": eng["time0"]}
+                                                       if eng and c["proto"]["version"] == "v3" else {}))
         for item in plan["ops"]:
             alt = item.get("reconf")
             if alt and item["client"] == ci0:
@@ -336,6 +351,10 @@ def execute(plan: dict) -> dict:
         "overlapping_walks": int(sum(1 for k in kinds if k in MULTI) >= 2), "same_request_id_in_flight": int(conc["same_rid"]),
         "lossy": int(plan["lossy"]), "lossy_timeout": lossy_timeout, "set_in_group": int("set" in kinds or "multiset" in kinds),
         "six_ops": int(len(kinds) == 6), "temporary_reconfiguration_in_group": int(bool(plan.get("reconf"))),
+        "devices_share_engine_id_differ_in_boots": int(v3 and len(plan["clients"]) > 1
+                                                       and len(set(c.get("engine", {}).get("id") for c in plan["clients"])) == 1
+                                                       and len(set((c.get("engine", {}).get("boots"), c.get("engine", {}).get("time0"))
+                                                                   for c in plan["clients"])) > 1),
         "distinct_request_ids_in_flight": int(plan.get("clock_mode") == "stepping"),
         "operation_abandoned_by_caller": int(any(r[0] == "abandoned" for r in conc["results"].values())),
     }
